@@ -34,6 +34,11 @@ def gen_type(r, depth=3, hashable=False, allow_unknown=False, allow_variant=True
     if k == "mapping":
         return (k, [gen_type(r, depth - 1, True, allow_unknown, allow_variant, allow_unordered), gen_type(r, depth - 1, False, allow_unknown, allow_variant, allow_unordered)])
     n = r.randrange(1, 4)
+    if r.random() < 0.12:
+        # the arities at the edge of what the repository's Java codecs support
+        # (tuples up to 5, variants of 2, 3 and 11 alternatives), with leaf fields
+        n = r.choice([4, 5, 6]) if k == "tuple" else 11
+        depth = 1
     return (k, [gen_type(r, depth - 1, hashable, allow_unknown, allow_variant, allow_unordered) for _ in range(n)])
 
 
